@@ -10,7 +10,13 @@ Every case is one history of store operations.  It is run on the real code
 The Coq side replays the history in the model (`agree`: same low-level operations, same reports,
 same file content at every crash point under CPython's buffering) and evaluates the property on the
 implementation's outputs (`ok`: reports = in-memory list of batches; every crash after a flush
-loads to the content after one of the operations between that flush and the kill)."""
+loads to the content after one of the operations between that flush and the kill).
+
+Prefix stores (a store whose n_batches is smaller than the number of batches in the file) are
+covered twice: histories with an `open` operation (NpyStore(filename, bs, n_batches=k)) go through
+the Coq model like all others (`Open k`, specification state = (batches in the file, n_batches));
+a second stream (case kind 'prefix', clause `prefix_store_write`) is python-side only and also
+takes the pickle / original-object-grows / unpickle route, comparing with a plain list of batches."""
 import ast
 import pickle
 import struct
@@ -188,6 +194,9 @@ def run_history(case, kill_at, observe, fname):
                 store = st.NpyStore(fname, bs)
             elif k == 'pickle':
                 store = pickle.loads(pickle.dumps(store))
+            elif k == 'open':          # a store exposing the first op[1] batches of the file (documented argument)
+                store.close()
+                store = st.NpyStore(fname, bs, n_batches=op[1])
             elif k == 'read':
                 np.array(store[op[1]])
             else:
@@ -196,7 +205,7 @@ def run_history(case, kill_at, observe, fname):
             err = True
         if observe:
             o = dict(err=err, len=len(store), load=None)
-            if op[0] in ('flush', 'close', 'reopen', 'pickle') and store.array.header_length is not None:
+            if op[0] in ('flush', 'close', 'reopen', 'pickle', 'open') and store.array.header_length is not None:
                 try:
                     o['load'] = [cells(np.load(fname + '.npy'))]
                 except Exception as e:
@@ -430,6 +439,8 @@ def c_hop(case, op):
         return 'Del %d' % op[1]
     if k == 'read':
         return 'Read %d' % op[1]
+    if k == 'open':
+        return 'Open %d' % op[1]
     return {'clear': 'Clear', 'flush': 'Flush', 'close': 'Close', 'reopen': 'Reopen', 'pickle': 'Pickle'}[k]
 
 
@@ -444,7 +455,15 @@ class C06(PropCheck):
             'plus a malformed stream: index past the end, deleting a middle batch, wrong row shape/dtype, operations on a closed '
             'store) over dtypes <f8 <i4 |b1, row shapes () (3,) (2,2), batch sizes 1-4, each replayed with a kill at every counted '
             'file operation; non-trivial = history with a flush-like operation followed by at least one content-changing operation '
-            'and at least 10 crash points; distinct by (dtype,row shape,batch size,operations)')
+            'and at least 10 crash points; distinct by (dtype,row shape,batch size,operations).  Prefix stores (n_batches smaller than the '
+            'number of batches in the file): (a) histories with open = NpyStore(filename, batch_size, n_batches=k), k below the number of '
+            'batches in the file, followed by a write at index n_batches and further append/overwrite/delete-last/flush/pickle/read/open/reopen/'
+            'clear operations, through the Coq model with all crash replays like the other histories; (b) a python-side differential stream '
+            '(clause prefix_store_write, list-of-batches reference): the store is obtained through the n_batches argument (file name or NpyArray, '
+            'keyword or positional, original closed or only flushed) or by unpickling a pickle taken before the original object appended more '
+            'batches and flushed; then a write at index n_batches and further append/overwrite/delete-last/flush/pickle/read/clear operations; '
+            'after every operation len(store) and every store[i], after flush-like operations the rows of numpy.load(file) at the visible '
+            'batches; non-trivial = the file holds more batches than the store exposes and the write at index n_batches was carried out')
     trusted = ('the file-operation interposer of harness/c06.py (proxy around the file object NpyArray opens; os._exit at a counted operation); '
                'kill = os._exit: user-space buffers are lost, the page cache (including memmap writes) survives; power loss / filesystem reordering not modelled',
                'numpy.load as the reader of the file left behind')
@@ -527,6 +546,68 @@ class C06(PropCheck):
             ops.append(['close'])
         return case
 
+    def gen_open_history(self):
+        """A valid history with one or two `open` operations (NpyStore(filename, bs, n_batches=k), k at most
+        the number of batches in the file), a write at index n_batches right after the first one, and
+        further operations; goes through the Coq model like the other histories (crash replays included)."""
+        r = self.rng
+        case = dict(dtype=r.choice(DTYPES), rowshape=list(r.choice(SHAPES)), bs=r.randint(1, 3), ops=[])
+        ops = case['ops']
+        nxt = [1]
+
+        def vals():
+            v = list(range(nxt[0], nxt[0] + case['bs']))
+            nxt[0] += case['bs']
+            return v
+        phys = r.randint(2, 4)                       # batches in the file
+        for i in range(phys):
+            ops.append(['set', i, 'ok', vals()])
+        if r.random() < 0.3:
+            ops.append(['flush'])
+        nb = r.randrange(phys)                       # strictly fewer than the file holds
+        ops.append(['open', nb])
+        ops.append(['set', nb, 'ok', vals()])        # the write at index n_batches
+        nb += 1
+        n = len(ops) + r.randint(1, 5)
+        weights = [('append', 30), ('over', 16), ('del', 14), ('flush', 10), ('pickle', 6), ('read', 5), ('open', 8), ('reopen', 5), ('clear', 2)]
+        while len(ops) < n:
+            k = r.choices([w[0] for w in weights], [w[1] for w in weights])[0]
+            if k == 'append':
+                ops.append(['set', nb, 'ok', vals()])
+                phys = max(phys, nb + 1)
+                nb += 1
+            elif k == 'over':
+                if nb == 0:
+                    continue
+                ops.append(['set', r.randrange(nb), 'ok', vals()])
+            elif k == 'del':
+                if nb == 0:
+                    continue
+                ops.append(['del', nb - 1])
+                nb -= 1
+                phys = nb
+            elif k == 'read':
+                if nb == 0:
+                    continue
+                ops.append(['read', r.randrange(nb)])
+            elif k == 'open':
+                if phys == 0:
+                    continue
+                nb = r.randint(0, phys)
+                ops.append(['open', nb])
+            elif k == 'reopen':
+                ops.append(['reopen'])
+                nb = phys
+            elif k == 'clear':
+                ops.append(['clear'])
+                nb = phys = 0
+            else:
+                ops.append([k])
+            self.bump('open_op=' + k)
+        if r.random() < 0.3:
+            ops.append(['close'])
+        return case
+
     def gen_prefix(self, variant=None):
         """One scenario of the prefix-store stream: a file with len(init) batches, a store exposing
         the first k < len(init) of them, a write at index k, then further valid operations."""
@@ -592,9 +673,17 @@ class C06(PropCheck):
             self.bump('rowshape=' + str(tuple(case['rowshape'])))
             self.bump('bs=%d' % case['bs'])
             yield case
-        # prefix stores (n_batches < batches in the file): python-side differential stream.  Generated
-        # after the histories above so that those stay the same for a given seed.
+        # prefix stores (n_batches < batches in the file).  Generated after the histories above so that
+        # those stay the same for a given seed.
         A, B, C, X, Y = [1, 2], [3, 4], [5, 6], [7, 8], [9, 10]
+        # (a) through the Coq model: histories with `open` = NpyStore(filename, bs, n_batches=k)
+        yield dict(base, ops=[['set', 0, 'ok', A], ['set', 1, 'ok', B], ['set', 2, 'ok', C], ['open', 1], ['set', 1, 'ok', X], ['flush'],
+                              ['set', 2, 'ok', Y], ['del', 2], ['del', 1], ['set', 1, 'ok', B], ['reopen']])
+        self.bump('stream=open')
+        for i in range(14 if self.tier == 'quick' else 200):
+            self.bump('stream=open')
+            yield self.gen_open_history()
+        # (b) python-side differential stream (also the pickle / grow / unpickle route, two live objects)
         fixed = [
             dict(base, kind='prefix', variant='nbatches_arg', via='file', orig='close', k=1, init=[A, B, C],
                  ops=[['set', 1, 'ok', X], ['flush']]),
@@ -670,7 +759,7 @@ class C06(PropCheck):
             ok = len(case['init']) > case['k'] and case['ops'][0][:2] == ['set', case['k']] and not out['prefix_obs'][1]['err']
             return json.dumps(case, sort_keys=True) if ok else None
         ops = case['ops']
-        fl = [i for i, o in enumerate(ops) if o[0] in ('flush', 'reopen', 'pickle')]
+        fl = [i for i, o in enumerate(ops) if o[0] in ('flush', 'reopen', 'pickle', 'open')]
         if not fl or len(out['crash']) < 10:
             return None
         if not any(o[0] in ('set', 'del', 'clear') for o in ops[fl[0] + 1:]):
@@ -679,7 +768,7 @@ class C06(PropCheck):
 
     def to_coq(self, case, out):
         if case.get('kind') == 'prefix':
-            return None          # python-side clause only (the Coq model starts every store at n_batches = rows / batch_size)
+            return None          # python-side clause only (two live objects over one file are not in the Coq model)
         if any(c_lop(e) is None for l in out['logs'] + out['logs_obs'] for e in l):
             return None
         logs, logs_obs = out['logs'], out['logs_obs']
